@@ -26,10 +26,16 @@ TARGETS = [
     ("verifyServerProof", "src/client.rs", "verify_server_proof"),
     ("calculateReconnectValues", "src/client.rs", "calculate_reconnect_values"),
     ("calculateSessionKey", "src/srp_internal.rs", "calculate_session_key"),
+    ("vanillaIntoClient", "src/vanilla_header/mod.rs", "into_client_header_crypto"),
+    ("vanillaIntoServer", "src/vanilla_header/mod.rs", "into_server_header_crypto"),
+    ("tbcIntoClient", "src/tbc_header/mod.rs", "into_client_header_crypto"),
+    ("tbcIntoServer", "src/tbc_header/mod.rs", "into_server_header_crypto"),
+    ("wrathIntoClient", "src/wrath_header/mod.rs", "into_client_header_crypto"),
+    ("wrathIntoServer", "src/wrath_header/mod.rs", "into_server_header_crypto"),
 ]
 # conversions that are the identity on the model's values (src/key.rs, src/primes.rs: bodies pinned by the glue facts)
 IDENT_CALLS = {"Proof::from_le_bytes", "ReconnectData::from_le_bytes", "Salt::from_le_bytes", "Verifier::from_le_bytes",
-               "LargeSafePrime::from_le_bytes", "Generator::from"}
+               "LargeSafePrime::from_le_bytes", "Generator::from", "SessionKey::from_le_bytes"}
 IDENT_METHODS = {"as_le_bytes"}
 MODULE_PREFIXES = ("srp_internal", "srp_internal_client", "crate")
 
@@ -209,6 +215,7 @@ class Fn:
         if e[0] == "call" and e[1] == ["Err"] and len(e[2]) == 1: return "Ret.err (%s)" % self.rhs(e[2][0])
         if e[0] == "mcall" and e[2] == "expect" and len(e[3]) == 1 and e[3][0][0] == "str":
             return "Ret.expect (%s) %s" % (self.rhs(e[1]), lean_str(e[3][0][1]))
+        if e[0] == "tuple" and len(e[1]) == 2: return "Ret.tup (%s) (%s)" % (self.atom(e[1][0]), self.atom(e[1][1]))
         return "Ret.val (%s)" % self.rhs(e)
     def translate(self):
         p = Parser(self.toks)
